@@ -54,3 +54,121 @@ theorem roundHalfEven_exact (q d : Nat) (hd : 0 < d) : roundHalfEven (q * d) d =
   simp [Nat.mul_div_cancel _ hd, hd]
 
 end Pxv.ReqData
+
+namespace Pxv.ReqData
+
+theorem pow2_mul (a b : Nat) : 2 ^ a * 2 ^ b = 2 ^ (a + b) := (Nat.pow_add 2 a b).symm
+
+/-- `floorLog2` finds the binade of the exact value: `2^e ≤ num/den < 2^(e+1)` for `num, den > 0` -/
+theorem floorLog2_spec (num den : Nat) (hn : 0 < num) (hd : 0 < den) :
+    geePow2 num den (floorLog2 num den) = true ∧ geePow2 num den (floorLog2 num den + 1) = false := by
+  have hA1 : 2 ^ num.log2 ≤ num := Nat.log2_self_le (by omega)
+  have hA2 : num < 2 ^ (num.log2 + 1) := Nat.lt_log2_self
+  have hB1 : 2 ^ den.log2 ≤ den := Nat.log2_self_le (by omega)
+  have hB2 : den < 2 ^ (den.log2 + 1) := Nat.lt_log2_self
+  unfold floorLog2
+  simp only []
+  generalize num.log2 = a at hA1 hA2 ⊢
+  generalize den.log2 = b at hB1 hB2 ⊢
+  by_cases hab : b ≤ a
+  · -- l = a - b ≥ 0
+    obtain ⟨k, rfl⟩ : ∃ k, a = b + k := ⟨a - b, by omega⟩
+    have hl : ((b + k : Nat) : Int) - (b : Int) = (k : Int) := by omega
+    simp only [hl]
+    by_cases hg : geePow2 num den (k : Int) = true
+    · simp only [hg, if_true, true_and]
+      -- den * 2^(k+1) > num
+      have : (k : Int) + 1 = ((k + 1 : Nat) : Int) := by omega
+      rw [this]
+      unfold geePow2
+      simp only [Int.natCast_nonneg, if_true, Int.toNat_natCast, decide_eq_false_iff_not, Nat.not_le]
+      calc num < 2 ^ (b + k + 1) := hA2
+        _ = 2 ^ b * 2 ^ (k + 1) := by rw [pow2_mul]; congr 1
+        _ ≤ den * 2 ^ (k + 1) := Nat.mul_le_mul_right _ hB1
+    · have hgf : geePow2 num den (k : Int) = false := by simpa using hg
+      simp only [hgf, Bool.false_eq_true, if_false]
+      refine ⟨?_, by rw [show (k : Int) - 1 + 1 = (k : Int) by omega]; exact hgf⟩
+      cases k with
+      | zero =>
+        -- l - 1 = -1: den ≤ num * 2
+        rw [show ((0 : Nat) : Int) - 1 = -1 by omega]
+        unfold geePow2
+        have hm1 : ¬ ((0 : Int) ≤ -1) := by omega
+        simp only [hm1, if_false, Int.neg_neg, Int.toNat_one, Nat.pow_one, decide_eq_true_eq]
+        have : den < 2 ^ (b + 1) := hB2
+        have h2 : 2 ^ (b + 1) = 2 ^ b * 2 := Nat.pow_succ ..
+        simp only [Nat.add_zero] at hA1
+        omega
+      | succ j =>
+        have : ((j + 1 : Nat) : Int) - 1 = ((j : Nat) : Int) := by omega
+        rw [this]
+        unfold geePow2
+        simp only [Int.natCast_nonneg, if_true, Int.toNat_natCast, decide_eq_true_eq]
+        have h1 : den * 2 ^ j < 2 ^ (b + 1) * 2 ^ j := Nat.mul_lt_mul_of_pos_right hB2 (Nat.pow_pos (by omega))
+        rw [pow2_mul] at h1
+        have h2 : b + 1 + j = b + (j + 1) := by omega
+        rw [h2] at h1
+        omega
+  · -- l = -(b - a) < 0
+    obtain ⟨j, rfl⟩ : ∃ j, b = a + (j + 1) := ⟨b - a - 1, by omega⟩
+    have hl : ((a : Nat) : Int) - ((a + (j + 1) : Nat) : Int) = -((j + 1 : Nat) : Int) := by omega
+    simp only [hl]
+    have hneg : ¬ (0 ≤ -((j + 1 : Nat) : Int)) := by omega
+    by_cases hg : geePow2 num den (-((j + 1 : Nat) : Int)) = true
+    · simp only [hg, if_true, true_and]
+      cases j with
+      | zero =>
+        rw [show -((0 + 1 : Nat) : Int) + 1 = (0 : Int) by omega]
+        unfold geePow2
+        simp only [Int.le_refl, if_true, Int.toNat_zero, Nat.pow_zero, Nat.mul_one, decide_eq_false_iff_not, Nat.not_le]
+        have : 2 ^ (a + (0 + 1)) ≤ den := hB1
+        simp only [Nat.zero_add] at this
+        omega
+      | succ i =>
+        rw [show -((i + 1 + 1 : Nat) : Int) + 1 = -((i + 1 : Nat) : Int) by omega]
+        unfold geePow2
+        have hneg2 : ¬ (0 ≤ -((i + 1 : Nat) : Int)) := by omega
+        simp only [hneg2, if_false, Int.neg_neg, Int.toNat_natCast, decide_eq_false_iff_not, Nat.not_le]
+        have h1 : num * 2 ^ (i + 1) < 2 ^ (a + 1) * 2 ^ (i + 1) := Nat.mul_lt_mul_of_pos_right hA2 (Nat.pow_pos (by omega))
+        rw [pow2_mul] at h1
+        have h2 : a + 1 + (i + 1) = a + (i + 1 + 1) := by omega
+        rw [h2] at h1
+        omega
+    · have hgf : geePow2 num den (-((j + 1 : Nat) : Int)) = false := by simpa using hg
+      simp only [hgf, Bool.false_eq_true, if_false]
+      refine ⟨?_, by rw [show -((j + 1 : Nat) : Int) - 1 + 1 = -((j + 1 : Nat) : Int) by omega]; exact hgf⟩
+      rw [show -((j + 1 : Nat) : Int) - 1 = -((j + 1 + 1 : Nat) : Int) by omega]
+      unfold geePow2
+      have hneg2 : ¬ (0 ≤ -((j + 1 + 1 : Nat) : Int)) := by omega
+      simp only [hneg2, if_false, Int.neg_neg, Int.toNat_natCast, decide_eq_true_eq]
+      have h1 : 2 ^ a * 2 ^ (j + 1 + 1) ≤ num * 2 ^ (j + 1 + 1) := Nat.mul_le_mul_right _ hA1
+      rw [pow2_mul] at h1
+      have h2 : a + (j + 1 + 1) = a + (j + 1) + 1 := by omega
+      rw [h2] at h1
+      omega
+
+end Pxv.ReqData
+
+namespace Pxv.ReqData
+
+/-- rounding keeps a value inside any integer interval that contains it: `lo ≤ n/d < hi` gives `lo ≤ round (n/d) ≤ hi` -/
+theorem roundHalfEven_range (n d lo hi : Nat) (hd : 0 < d) (h1 : lo * d ≤ n) (h2 : n < hi * d) :
+    lo ≤ roundHalfEven n d ∧ roundHalfEven n d ≤ hi := by
+  obtain ⟨ha, hb⟩ := roundHalfEven_near n d hd
+  generalize roundHalfEven n d = q at ha hb
+  constructor
+  · -- if q + 1 ≤ lo then (q+1)·d ≤ lo·d ≤ n, but 2n ≤ 2qd + d
+    apply Classical.byContradiction
+    intro hlt
+    have hq : q + 1 ≤ lo := by omega
+    have := Nat.mul_le_mul_right d hq
+    rw [Nat.add_mul] at this
+    omega
+  · apply Classical.byContradiction
+    intro hgt
+    have hq : hi + 1 ≤ q := by omega
+    have := Nat.mul_le_mul_right d hq
+    rw [Nat.add_mul] at this
+    omega
+
+end Pxv.ReqData
